@@ -12,7 +12,7 @@ import re
 
 VERIF = os.path.dirname(os.path.dirname(os.path.abspath(__file__)))
 REPO = os.environ.get('VERIF_REPO', '/repo')
-WORK = os.path.join(VERIF, '.work')
+WORK = os.environ.get('VERIF_WORK') or os.path.join(VERIF, '.work')
 MIRDIR = os.path.join(WORK, 'mir')
 
 sys.path.insert(0, os.path.join(VERIF, 'mirsmt'))
@@ -184,6 +184,12 @@ class Check:
         self.undecided = None
         self.unwinding = []
         self.plans = []
+        self.xcheck = None
+        xenv = os.environ.get('VERIF_XCHECK')
+        if xenv == '1' or (xenv is None and tier != 'quick'):
+            import xcheck
+            self.xcheck = xcheck.CrossCheck(per_query_ms=5000 if tier == 'quick' else 15000,
+                                            dump_dir=os.path.join(WORK, 'xcheck', prop))
 
     def load(self, want=('bin_off',)):
         dumps, stamp = ensure_mir(want)
@@ -212,6 +218,8 @@ class Check:
         opts.update(kw)
         ex = Engine(db or self.db, self.si, **opts)
         contracts.install(ex)
+        if self.xcheck is not None:
+            ex.xcheck = self.xcheck
         self.engines.append(ex)
         return ex
 
@@ -345,6 +353,19 @@ class Check:
             return 1
         return 2 if unconfirmed else 0
 
+    def _xcheck_report(self):
+        xc = self.xcheck
+        if xc is None:
+            return {'engine': None, 'note': 'second-solver cross-check runs in the thorough tier (or with VERIF_XCHECK=1)'}
+        r = dict(xc.stats)
+        r['seconds'] = round(r['seconds'], 2)
+        r.update({'engine': _cvc5v(), 'per_query_ms': xc.per_query_ms,
+                  'rule': 'every unsat that discharges an obligation, and every %d-th unsat that prunes a branch, is re-decided by cvc5 on the '
+                          'SMT-LIB2 text z3 prints for the same assertions; error/unknown = not cross-checked, never counted as agreement; a '
+                          'disagreement turns the z3 answer into unknown (obligation inconclusive, branch explored)' % xc.branch_sample,
+                  'first_error': xc.first_error, 'disagreement_files': xc.disagreements})
+        return r
+
     def write_evidence(self, nviol):
         st = {'queries': 0, 'sat': 0, 'unsat': 0, 'unknown': 0, 'solver_s': 0.0, 'paths': 0, 'forks': 0}
         havoc, used, inlined, unsupported, unwind = {}, {}, {}, [], []
@@ -400,6 +421,7 @@ class Check:
                 'unwinding_obligations_failed': self.unwinding,
                 'solver': {'engine': 'z3 ' + _z3v(), 'queries': st['queries'], 'sat': st['sat'], 'unsat': st['unsat'],
                            'unknown': st['unknown'], 'solver_s': round(st['solver_s'], 3), 'paths': st['paths']},
+                'second_solver': self._xcheck_report(),
                 'mir': self.mir_stamp,
                 'obligation_list': [ob.to_json() for ob in self.obs][:400],
                 'replays': self.replays,
@@ -411,9 +433,19 @@ class Check:
         if self.undecided:
             ev['coverage']['undecided'] = self.undecided
             ev['coverage']['evaluations'] = max(1, ev['coverage']['evaluations'])
-        os.makedirs(os.path.join(VERIF, 'evidence'), exist_ok=True)
-        with open(os.path.join(VERIF, 'evidence', self.prop + '.json'), 'w') as f:
+        # a side lane (VERIF_WORK set: experiments on a scratch worktree) keeps its evidence with its scratch files
+        evdir = os.path.join(WORK, 'evidence') if os.environ.get('VERIF_WORK') else os.path.join(VERIF, 'evidence')
+        os.makedirs(evdir, exist_ok=True)
+        with open(os.path.join(evdir, self.prop + '.json'), 'w') as f:
             json.dump(ev, f, indent=1, default=str)
+
+
+def _cvc5v():
+    import subprocess
+    try:
+        return subprocess.run(['cvc5', '--version'], capture_output=True, text=True).stdout.split('\n')[0].strip()
+    except Exception as e:  # noqa
+        return 'cvc5 (unavailable: %s)' % e
 
 
 def _z3v():
